@@ -14,7 +14,9 @@
 //!         x:<partialhex>   a Serialize impl that writes exactly these bytes to the writer and then returns Err
 //! output  one token per item (`ok` / `err`, for failing items `err:p=<hex of the bytes that impl really emitted>`;
 //!         for the one-shot kinds `-` / `p=<hex>`), then `=> none | some:<hex> | err | PANIC | MACRO-PANIC`;
-//!         batch: entry outputs followed by `-> ok|err|PANIC`, joined by ` | `, then ` || <n> (m<hex>:none|m<hex>:some:<hex>)*`.
+//!         batch: per entry the item tokens and `-> ok|err|PANIC|MACRO-PANIC` (result of `BatchRequestBuilder::insert` with the
+//!         real params object), joined by ` | `, then ` || <n> built:<n>|built:empty (m<hex>:none|m<hex>:some:<hex>)*` read back
+//!         through `iter()` / `build()`.
 use jrv::*;
 use jsonrpsee_core::params::{ArrayParams, BatchRequestBuilder, ObjectParams};
 use jsonrpsee_core::rpc_params;
